@@ -20,20 +20,9 @@ import (
 
 const probePkg = "x_ruleprobe"
 
-type ruleFileSpec struct {
-	Path   string            `json:"path"`
-	Kind   string            `json:"kind"` // valid | unreadable | torn-boundary | torn-inside | empty | dsl-violation | bad-import
-	Fault  string            `json:"fault,omitempty"`
-	Groups []model.RuleGroup `json:"groups"`
-	Keep   int               `json:"keep,omitempty"` // torn-boundary: groups surviving
-}
+type ruleFileSpec = model.RuleFileSpec
 
-type c18Extra struct {
-	Scenario model.RuleScenario `json:"scenario"`
-	Specs    []ruleFileSpec     `json:"specs"`
-	RulesArg string             `json:"rules_arg"` // the literal parameter value (patterns with their spacing)
-	Builds   int                `json:"builds"`    // constructions in a row (the disk is re-read each time)
-}
+type c18Extra = model.RuleRun
 
 const ruleHeader = "package gorules\n\nimport \"github.com/quasilyte/go-ruleguard/dsl\"\n\n"
 
@@ -76,18 +65,6 @@ func renderRuleFile(sp *ruleFileSpec) ([]byte, simrt.SimFault) {
 		return []byte(src + bad), simrt.SimFault{}
 	}
 	panic("unknown rule file kind " + sp.Kind)
-}
-
-func classOf(kind string) string {
-	switch kind {
-	case "valid", "torn-boundary":
-		return model.ClassOK
-	case "unreadable":
-		return model.ClassUnreadable
-	case "bad-import":
-		return model.ClassImport
-	}
-	return model.ClassDSL
 }
 
 func (w *Worker) genC18(rc *simapi.RunConfig) {
@@ -222,19 +199,7 @@ func (w *Worker) genC18(rc *simapi.RunConfig) {
 			sc.Enable += "," + sp.Groups[0].Name + "imp"
 		}
 	}
-	for _, sp := range ex.Specs {
-		mf := model.RuleFile{Path: sp.Path, Class: classOf(sp.Kind)}
-		if sp.Kind == "torn-boundary" && sp.Keep == 0 {
-			mf.Class = model.ClassDSL // only the header survives: "imported and not used" does not compile
-		}
-		switch sp.Kind {
-		case "valid":
-			mf.Groups = sp.Groups
-		case "torn-boundary":
-			mf.Groups = sp.Groups[:sp.Keep]
-		}
-		sc.Files = append(sc.Files, mf)
-	}
+	ex.Rebuild()
 	rc.Extra, _ = json.Marshal(ex)
 }
 
